@@ -27,7 +27,7 @@ Definition WSrc (s s2 : core) (evs : list (Z * Z * Z)) : Prop :=
     InvW s1 /\ KX (kern s1) /\ TFs s s1 /\ CQI s s1 /\ notify s1 = notify s /\ active s1 = active s /\
     vfds kx = vfds (kern s1) /\
     (forall ev, In ev evs -> exists e, In e (ep (kern s1)) /\ ev = (en_fd e, ep_ready_bits kx e, en_data e) /\ ep_ready_bits kx e <> 0) /\
-    fdt s2 = fdt s1 /\ active s2 = active s1 /\ owners s2 = owners s1 /\ efd_raw s2 = efd_raw s1 /\
+    fdt s2 = fdt s1 /\ active s2 = active s1 /\ owners s2 = owners s1 /\ rw_wfd s2 = rw_wfd s1 /\
     last_abs_count s2 = last_abs_count s1 /\ vfds (kern s2) = vfds (kern s1) /\
     had_ev (mst s2) = (0 <? Z.of_nat (length evs)) /\ ncall (mst s2) = 0.
 
@@ -195,13 +195,13 @@ Proof.
   (* the rest of iv_fd_epoll_poll did nothing *)
   intros E2 HEI.
   assert (TAIL : fdt s' = fdt s4 /\ active s' = active s4 /\ rw_reg s' = rw_reg s4 /\ rw_rfd s' = rw_rfd s4 /\
-                 efd_raw s' = efd_raw s4 /\ trace s' = trace s4 /\
+                 rw_wfd s' = rw_wfd s4 /\ trace s' = trace s4 /\
                  (forall fd, fd <> tfd s4 -> k_get (kern s') fd = k_get (kern s4) fd)).
   { destruct (if tmr then match k_read (kern s4) (tfd s4) 8 with
                           | (k1, inl _) => R (set_kern s4 k1) | (k1, inr _) => halt (set_kern s4 k1) TFatal end else R s4) as [s5|s5] eqn:E5;
       cbn [bind] in E2; [|discriminate E2].
     assert (S5 : fdt s5 = fdt s4 /\ active s5 = active s4 /\ rw_reg s5 = rw_reg s4 /\ rw_rfd s5 = rw_rfd s4 /\
-                 efd_raw s5 = efd_raw s4 /\ trace s5 = trace s4 /\
+                 rw_wfd s5 = rw_wfd s4 /\ trace s5 = trace s4 /\
                  (forall fd, fd <> tfd s4 -> k_get (kern s5) fd = k_get (kern s4) fd)).
     { destruct tmr; [|inversion E5; repeat split; reflexivity].
       destruct (k_read (kern s4) (tfd s4) 8) as [k1 [x|e]] eqn:RD; [|unfold halt in E5; discriminate E5].
@@ -230,8 +230,8 @@ Proof.
     split; [rewrite FD5; exact HN|]. destruct CC as [CC|(L1 & RR & _ & (v & OV & NV & KV))]; [left; exact CC|right].
     split; [exact L1|]. split; [rewrite RW5, RW4; change (rw_reg s3) with (rw_reg s2); rewrite RW2; exact RR|].
     assert (RFE : rw_rfd s4 = rw_rfd sw) by (rewrite RF4; change (rw_rfd s3) with (rw_rfd s2); exact RF2).
-    assert (ERE : efd_raw s4 = efd_raw sw) by (rewrite (kf_er _ _ _ KF4); change (efd_raw s3) with (efd_raw s2); exact ER2).
-    exists v. rewrite RF5, ER5, RFE, ERE. split; [|split; [exact NV|exact KV]].
+    assert (ERE : rw_wfd s4 = rw_wfd sw) by (rewrite (kf_wf _ _ _ KF4); change (rw_wfd s3) with (rw_wfd s2); exact ER2).
+    exists v. unfold raw_is_pipe in *. rewrite RF5, ER5, RFE, ERE. split; [|split; [exact NV|exact KV]].
     destruct (al_raw _ _ (InvW_AL sw Iw) _ RR) as (_ & NT & _).
     unfold k_open in *. rewrite G5; [|rewrite TD4; change (tfd s3) with (tfd s2); rewrite TD2; exact NT].
     rewrite (af_kern _ _ AF4). change (kern s3) with (kern s2). rewrite (get_same (kern s2) (kern sw) _ VF2). exact OV.
@@ -323,7 +323,7 @@ Proof.
   { destruct (af_fd _ _ AF d) as (_ & H1 & H2 & H3 & _). unfold hnd in *. rewrite H1, H2, H3. exact HH. }
   destruct CC as [CC|(L1 & RR & _ & (v & OV & NV & KV))]; [left; exact CC|right].
   split; [exact L1|]. split; [rewrite RW5; exact RR|].
-  exists v. rewrite RF5, (kf_er _ _ _ KF5). change (rw_rfd s4) with (rw_rfd s1). change (efd_raw s4) with (efd_raw s1).
+  exists v. unfold raw_is_pipe in *. rewrite RF5, (kf_wf _ _ _ KF5). change (rw_rfd s4) with (rw_rfd s1). change (rw_wfd s4) with (rw_wfd s1).
   split; [|split; [exact NV|exact KV]].
   unfold k_open in *. rewrite (af_kern _ _ AF). change (kern s4) with k1. rewrite (get_same k1 (kern s1) _ V1). exact OV.
 Qed.
@@ -382,7 +382,7 @@ Qed.
 Lemma KickDry_inv : forall s, InvW s -> CQ s -> KickDry s.
 Proof.
   intros s I C RK kx n RD. pose proof (dy_kern _ (CoreInvDefs.iw_dyn _ I) KICK_RAW RK) as DK. unfold toread in RD.
-  destruct (Z.eqb_spec (efd_raw s) 0) as [E0|NE0].
+  destruct (raw_is_pipe s KICK_RAW).
   - destruct DK as (_ & _ & v & vw & O1 & K1 & _ & PO & _).
     pose proof (kickraw_zero s v I C RK O1) as Z0.
     revert RD. unfold k_read. rewrite O1, K1. change (K_PIPE_R =? K_EVENTFD) with false. change (K_PIPE_R =? K_PIPE_R) with true. cbv iota.
@@ -431,11 +431,11 @@ Qed.
 
 (* ---------- iv_fd_poll_and_run ---------- *)
 Lemma FiresS_same : forall s s' d, fdt s' = fdt s -> kern s' = kern s -> rw_reg s' = rw_reg s -> rw_rfd s' = rw_rfd s ->
-  efd_raw s' = efd_raw s -> FiresS s d -> FiresS s' d.
+  rw_wfd s' = rw_wfd s -> FiresS s d -> FiresS s' d.
 Proof.
   intros s s' d F K R1 R2 R3 (b & hid & B & RD & HH & CC). exists b, hid. rewrite F. split; [exact B|]. split; [exact RD|]. split; [exact HH|].
   destruct CC as [CC|(L & RR & (v & O & N & KK))]; [left; exact CC|right]. split; [exact L|]. rewrite R1. split; [exact RR|].
-  exists v. rewrite K, R2, R3. auto.
+  exists v. unfold raw_is_pipe. rewrite K, R2, R3. auto.
 Qed.
 
 Lemma poll_and_run_EI : forall s abs s'', LoopInv s -> WP sc s -> CQ s -> LKM s -> K0 s ->
